@@ -52,6 +52,8 @@ type Stream struct {
 
 	eofWithData bool         // the Read that delivers the last bytes of an ended stream returns io.EOF with them
 	emptyAt     map[int]bool // absolute offsets at which one Read returns (0, nil) before the data there
+	emptyEach   bool         // every Read that would deliver bytes is preceded by one that returns (0, nil)
+	emptyGiven  bool
 }
 
 // NewStream returns an empty stream with unlimited credit.
@@ -107,6 +109,14 @@ func (s *Stream) EmptyReadsAt(offsets []int) {
 	for _, o := range offsets {
 		s.emptyAt[o] = true
 	}
+	s.mu.Unlock()
+}
+
+// EmptyBeforeEachRead makes every Read that would deliver bytes be preceded by
+// one that returns (0, nil).
+func (s *Stream) EmptyBeforeEachRead(on bool) {
+	s.mu.Lock()
+	s.emptyEach, s.emptyGiven = on, false
 	s.mu.Unlock()
 }
 
@@ -267,6 +277,12 @@ func (s *Stream) Read(p []byte) (int, error) {
 				delete(s.emptyAt, s.rpos)
 				s.reads++
 				return 0, nil
+			}
+			if s.emptyEach {
+				if s.emptyGiven = !s.emptyGiven; s.emptyGiven {
+					s.reads++
+					return 0, nil
+				}
 			}
 			n := limit - s.rpos
 			if n > len(p) {
